@@ -480,10 +480,6 @@ func init() {
 		}
 		return mkNum(eng(fr).trunc(Mul(a, b), kE, "mult"))
 	}
-	ext[D+"MulRoundUp"] = func(fr *frame, args []value) value {
-		// chopPrecisionAndRoundUp: ceil for non-negative, truncate (toward zero) for negative = ceiling
-		return mkNum(eng(fr).ceil(Mul(cellOf(args[0]), cellOf(args[1])), kE, "mulup"))
-	}
 	ext[D+"MulInt"] = func(fr *frame, args []value) value { return mkNum(Mul(cellOf(args[0]), cellOf(args[1]))) }
 	ext[D+"MulInt64"] = func(fr *frame, args []value) value { return mkNum(Mul(cellOf(args[0]), termOfInt(args[1]))) }
 	ext[D+"Quo"] = func(fr *frame, args []value) value { return mkNum(eng(fr).decQuo(cellOf(args[0]), cellOf(args[1]))) }
@@ -500,15 +496,6 @@ func init() {
 	}
 	ext[D+"QuoTruncate"] = func(fr *frame, args []value) value {
 		return mkNum(quoTrunc(eng(fr), cellOf(args[0]), cellOf(args[1])))
-	}
-	ext[D+"QuoRoundUp"] = func(fr *frame, args []value) value {
-		e := eng(fr)
-		a, b := cellOf(args[0]), cellOf(args[1])
-		e.divZero(b)
-		if e.decide(Cmp("<", b, KI(0))) {
-			a, b = Neg(a), Neg(b)
-		}
-		return mkNum(e.ceil(Mul(a, kE), b, "quoup"))
 	}
 	ext[D+"QuoInt"] = func(fr *frame, args []value) value { return iquo(fr, cellOf(args[0]), cellOf(args[1])) }
 	ext[D+"QuoInt64"] = func(fr *frame, args []value) value { return iquo(fr, cellOf(args[0]), termOfInt(args[1])) }
